@@ -3,6 +3,8 @@ import Lemmas.Files.Load
 import Lemmas.Files.RevMap
 import Lemmas.Files.Split
 import Lemmas.Files.Twin
+import Lemmas.Files.Cache
+import Lemmas.Files.Twice
 /-!
 # C19 — every revision file in the configured locations is loaded exactly once
 
@@ -250,6 +252,117 @@ example : isRevName false ".a3_local.py".toList = true ∧ isRevName false "#b3_
     isRevName false "__init__x.py".toList = true ∧ isRevName false "a.pyc".toList = false ∧
     isRevName true "a.pyc".toList = true := by decide
 
+/-- **Compiled files only in sourceless mode.** Without `sourceless`, every loaded script comes from a file
+whose real name ends in `.py`: no `.pyc` / `.pyo`, no `__pycache__` entry is ever loaded. -/
+theorem only_source_unless_sourceless (fs : FS) (cfg : Cfg) (locs : List Dir) (r : Result)
+    (h : load fs cfg locs = .ok r) (hs : cfg.sourceless = false) :
+    ∀ n ∈ nodesOf r, endsWith dotPy (fs.node n).name = true := by
+  intro n hn
+  obtain ⟨s, hs', rfl⟩ := List.mem_map.mp hn
+  obtain ⟨_, _, h3, _⟩ := loadLoop_ok_inv fs cfg _ [] r.loaded r.twice (load_ok h).1
+  have hrev := accepts_isRevFile fs cfg s.node ((fromFilename_some fs cfg s.node s).mp (h3 s hs').2).1
+  unfold isRevFile at hrev
+  simp only [hs, Bool.false_and, Bool.or_false, Bool.and_eq_true] at hrev
+  exact hrev.2
+
+/-! ## the same file reached twice -/
+
+/-- **"Loaded twice" warnings.** A "File … loaded twice! ignoring" warning names canonical file `n` if and
+only if at least two of the listed paths (over all version locations, through whatever names, symlinks or
+overlapping locations) resolve to `n` — whether or not `n` is a revision file. -/
+theorem twice_warning (fs : FS) (cfg : Cfg) (locs : List Dir) (r : Result) (h : load fs cfg locs = .ok r) (n : Nat) :
+    n ∈ r.twice ↔ 2 ≤ listedCount n (allListed cfg locs) := by
+  have := loadLoop_twice fs cfg n (allListed cfg locs) [] r.loaded r.twice (load_ok h).1
+  simpa using this
+
+/-! ## `__pycache__` entries in sourceless mode (`x.<tag>.pyc`, `x.<tag>.opt-1.pyc`, …) -/
+
+/-- **Listing rule of `__pycache__`.** What `_list_py_dir` adds for a directory `d` from its `__pycache__`
+depends on an entry only through its *stem* (text before the first dot): the entry is listed iff
+`sourceless` is on and no non-directory entry of `d` itself has that stem.  The rest of the entry's name —
+interpreter tag, `.opt-1` / `.opt-2` suffix — plays no role. -/
+theorem pycache_listing_rule (cfg : Cfg) (d c : Dir) (hc : d.sub? pycacheName = some c) (e : Entry)
+    (he : e ∈ c.files) (hne : e ∉ d.files) :
+    e ∈ listDir cfg d ↔ (cfg.sourceless = true ∧ ∀ f ∈ d.files, stem f.name ≠ stem e.name) := by
+  unfold listDir cacheExtras
+  rw [hc]
+  cases hs : cfg.sourceless with
+  | false => simp [hne]
+  | true =>
+    simp only [if_true, List.mem_append, hne, false_or, List.mem_filter, he, true_and, Bool.not_eq_true']
+    constructor
+    · intro h f hf heq
+      have : (List.map (fun e => stem e.name) d.files).contains (stem e.name) = true :=
+        List.contains_iff_mem.mpr (List.mem_map.mpr ⟨f, hf, heq⟩)
+      rw [this] at h; cases h
+    · intro h
+      cases hcon : (List.map (fun e => stem e.name) d.files).contains (stem e.name) with
+      | false => rfl
+      | true =>
+        obtain ⟨f, hf, heq⟩ := List.mem_map.mp (List.contains_iff_mem.mp hcon)
+        exact absurd heq (h f hf)
+
+/-- **Optimised and tagged byte code is loaded, exactly once.** In sourceless mode, take any searched
+directory `d` of a configured location and any entry of its `__pycache__` named
+`<m>.<mid>.pyc` — `mid` arbitrary: `cpython-312`, `cpython-312.opt-1`, `cpython-312.opt-2`, another
+interpreter's tag — where `<m>` is a non-empty dot-free module name other than `__init__`.  If no entry of
+`d` itself has the stem `<m>` (no `m.py`, no old-style `m.pyc`, …), the entry is a regular file, and no
+`<m>.<mid>.py` lies next to it, then the load succeeding means this file is among the loaded scripts
+**exactly once** — however many other ways (symlinks, overlapping locations) reach it. -/
+theorem pycache_entry_loaded_once (fs : FS) (cfg : Cfg) (locs : List Dir) (r : Result)
+    (hroots : RootsOk locs) (h : load fs cfg locs = .ok r) (hs : cfg.sourceless = true)
+    (root : Dir) (hroot : root ∈ locs) (d : Dir) (hd : InScope cfg root d)
+    (c : Dir) (hc : d.sub? pycacheName = some c) (e : Entry) (he : e ∈ c.files)
+    (m mid : Name) (hm0 : m ≠ []) (hmdot : '.' ∉ m) (hminit : m ≠ initPrefix)
+    (hlisted : e.name = cacheName m mid) (hreal : (fs.node e.node).name = cacheName m mid)
+    (hstem : ∀ f ∈ d.files, stem f.name ≠ m)
+    (htwin : fs.exists_ (fs.node e.node).dir (cacheName m mid).dropLast = false) :
+    (nodesOf r).count e.node = 1 := by
+  have hexp : Expected fs cfg locs e.node := by
+    refine ⟨⟨root, hroot, d, hd, Or.inr ⟨hs, c, hc, e, he, rfl, ?_⟩⟩, ?_⟩
+    · intro f hf
+      rw [hlisted, stem_cacheName m mid hmdot]
+      exact hstem f hf
+    · unfold isRevFile
+      simp only [hreal, not_lock_cacheName m mid hm0 hmdot, not_init_cacheName m mid hmdot hminit,
+        endsWith_pyc_cacheName, hs, htwin]
+      simp
+  exact count_eq_one_of_nodup_mem _ _ (loaded_once fs cfg locs r h)
+    (loaded_complete fs cfg locs r hroots h e.node hexp)
+
+/-- **… and shadowed otherwise.** If the directory itself holds an entry with the stem `<m>` (`m.py`, an
+old-style `m.pyc`, …), `_list_py_dir` does not list `__pycache__/<m>.<mid>.pyc` for that directory, in any mode. -/
+theorem pycache_entry_shadowed (cfg : Cfg) (d c : Dir) (hc : d.sub? pycacheName = some c) (e : Entry)
+    (he : e ∈ c.files) (hne : e ∉ d.files) (m mid : Name) (hmdot : '.' ∉ m) (hlisted : e.name = cacheName m mid)
+    (f : Entry) (hf : f ∈ d.files) (hfs : stem f.name = m) : e ∉ listDir cfg d := by
+  intro hin
+  have := ((pycache_listing_rule cfg d c hc e he hne).mp hin).2 f hf
+  rw [hlisted, stem_cacheName m mid hmdot] at this
+  exact this hfs
+
+/-- the spellings in question are instances of `cacheName`, and are revision file names -/
+example : cacheName "a1".toList "cpython-312.opt-1".toList = "a1.cpython-312.opt-1.pyc".toList ∧
+    cacheName "a1".toList "cpython-312".toList = "a1.cpython-312.pyc".toList ∧
+    isRevName true "a1.cpython-312.opt-2.pyc".toList = true ∧ stem "a1.cpython-312.opt-1.pyc".toList = "a1".toList := by decide
+
+/-- non-vacuity: a version location `va` whose `__pycache__` holds `a1.cpython-312.opt-1.pyc` (and nothing else):
+    all hypotheses of `pycache_entry_loaded_once` hold and the model loads it -/
+def optFS : FS :=
+  { node := fun _ => { dir := 1, name := "a1.cpython-312.opt-1.pyc".toList, content := .rev ['o', '1'] }
+    exists_ := fun _ _ => false }
+def optLocs : List Dir :=
+  [⟨"va".toList, [], .cons pycacheName [⟨"a1.cpython-312.opt-1.pyc".toList, 0⟩] .nil .nil⟩]
+example : load optFS ⟨true, false⟩ optLocs = .ok ⟨[⟨0, ['o', '1']⟩], [], [['o', '1']], []⟩ := by rfl
+example : (nodesOf ⟨[⟨0, ['o', '1']⟩], [], [['o', '1']], []⟩).count 0 = 1 :=
+  pycache_entry_loaded_once optFS ⟨true, false⟩ optLocs _ (by intro r hr; simp only [optLocs, List.mem_singleton] at hr; subst hr; decide)
+    (by rfl) rfl _ (List.mem_singleton.mpr rfl) _ (.root (by decide))
+    ⟨pycacheName, [⟨"a1.cpython-312.opt-1.pyc".toList, 0⟩], .nil⟩ (by rfl)
+    ⟨"a1.cpython-312.opt-1.pyc".toList, 0⟩ (List.mem_singleton.mpr rfl)
+    "a1".toList "cpython-312.opt-1".toList (by decide) (by decide) (by decide) (by decide) (by decide)
+    (by intro f hf; cases hf) rfl
+/-- without sourceless mode the same entry is not listed (and nothing is loaded; `only_source_unless_sourceless`) -/
+example : load optFS ⟨false, false⟩ optLocs = .ok ⟨[], [], [], []⟩ := by rfl
+
 /-! ## a source file wins over its compiled form -/
 
 /-- `_from_filename` never imports a `.pyc`/`.pyo` whose `.py` sibling exists (sourceless mode or
@@ -295,6 +408,9 @@ def sampleLocs : List Dir :=
 
 example : load sampleFS ⟨true, true⟩ sampleLocs =
     .ok ⟨[⟨0, ['a']⟩, ⟨4, ['a']⟩, ⟨5, ['c']⟩], [4], [['a'], ['c']], [['a']]⟩ := by rfl
+/-- in `sampleLocs`, `b.py` (canonical file 4) is listed twice (as `ln.py` and as `sub/b.py`), `a.py` once -/
+example : listedCount 4 (allListed ⟨true, true⟩ sampleLocs) = 2 ∧ listedCount 0 (allListed ⟨true, true⟩ sampleLocs) = 1 := by decide
+
 example : RootsOk sampleLocs := by
   intro r hr; simp only [sampleLocs, List.mem_singleton] at hr; subst hr; decide
 example : (judge sampleFS ⟨true, true⟩ sampleLocs [(0, ['a']), (4, ['a']), (5, ['c'])] [['a'], ['c']] [['a']]).holds = true := by decide
